@@ -100,7 +100,7 @@ def constants(chk, F, ty):
             chk.undecide(key, "unsupported: %s" % ex, body_loc(F, body))
 
 
-def complex_field(chk, F, ty, thorough):
+def complex_field(chk, F, ty, thorough, branches=True):
     imp = the_impl(chk, F, "ComplexField", ty)
     if imp is None:
         return
@@ -152,6 +152,8 @@ def complex_field(chk, F, ty, thorough):
         chk.count("ComplexField forwarding items")
         sign_arms(chk, F, ty, body, key, "%s is the absolute value: +self on the positive arm, -self on the negative arm" % name,
                   lambda s: A if s > 0 else -A, zero_ok=(A, -A))
+    if not branches:
+        return
     # argument: 0 for re >= 0, pi otherwise (simba f64)
     body = F.impl_item(imp, "argument")
     if body is None:
